@@ -42,6 +42,7 @@ type World struct {
 
 	slice *Record
 	iface *Record
+	abstract map[string]*Record // named type key -> record view
 
 	unsupported []string
 }
@@ -248,7 +249,53 @@ func typeKey(t types.Type) string {
 	return smtName(types.TypeString(t, func(p *types.Package) string { return p.Name() }))
 }
 
+// abstractRec returns the record view of a named type declared abstract in this world.
+func (w *World) abstractRec(t types.Type) *Record {
+	if w.abstract == nil {
+		return nil
+	}
+	if n, ok := types.Unalias(t).(*types.Named); ok && n.Obj().Pkg() != nil {
+		return w.abstract[n.Obj().Pkg().Name()+"."+n.Obj().Name()]
+	}
+	return nil
+}
+
+// DeclareAbstractInstr installs the record view of bytecode.Type:
+// (op, k0, a0, k1, a1, k2, a2), justified by the bit-level lemmas of C15.
+func (w *World) DeclareAbstractInstr(key string) {
+	if w.abstract == nil {
+		w.abstract = map[string]*Record{}
+	}
+	r := &Record{Name: "BC", Ctor: "mk_BC", Fields: []Field{{"bc_op", w.IS}, {"bc_k0", w.IS}, {"bc_a0", w.IS}, {"bc_k1", w.IS}, {"bc_a1", w.IS}, {"bc_k2", w.IS}, {"bc_a2", w.IS}}}
+	w.addRecord(r)
+	w.abstract[key] = r
+	w.declFun("bc_orf", "("+string(w.IS)+" "+string(w.IS)+") "+string(w.IS))
+}
+
+// BCOr is the field-wise OR of two instruction words in the record view: a
+// field that is zero on one side takes the other side's value.
+func (w *World) BCOr(a, b *Term) *Term {
+	r := w.records["BC"]
+	args := make([]*Term, len(r.Fields))
+	zero := w.Int(0)
+	for i := range r.Fields {
+		x, y := r.Get(a, i), r.Get(b, i)
+		switch {
+		case x.isLit && x.lit.Sign() == 0:
+			args[i] = y
+		case y.isLit && y.lit.Sign() == 0:
+			args[i] = x
+		default:
+			args[i] = Ite(Eq(x, zero), y, Ite(Eq(y, zero), x, App("bc_orf", w.IS, x, y)))
+		}
+	}
+	return r.Make(args...)
+}
+
 func (w *World) SortOf(t types.Type) Sort {
+	if r := w.abstractRec(t); r != nil {
+		return r.Name
+	}
 	switch u := t.Underlying().(type) {
 	case *types.Basic:
 		info := u.Info()
@@ -316,6 +363,13 @@ func (w *World) RecordOfType(t types.Type) *Record {
 }
 
 func (w *World) Zero(t types.Type) *Term {
+	if r := w.abstractRec(t); r != nil {
+		args := make([]*Term, len(r.Fields))
+		for i := range args {
+			args[i] = w.Int(0)
+		}
+		return r.Make(args...)
+	}
 	switch u := t.Underlying().(type) {
 	case *types.Basic:
 		info := u.Info()
@@ -424,6 +478,12 @@ func (w *World) FnID(name string) *Term {
 func (w *World) ConstTerm(c constant.Value, t types.Type) *Term {
 	if c == nil {
 		return w.Zero(t)
+	}
+	if r := w.abstractRec(t); r != nil {
+		if constant.Sign(c) == 0 {
+			return w.Zero(t)
+		}
+		panic(unsupported{"non-zero constant of abstract type " + t.String()})
 	}
 	switch u := t.Underlying().(type) {
 	case *types.Basic:
